@@ -16,6 +16,16 @@ import re
 from checks import promsel as P
 
 
+def oracle_gap(c):
+    """match() patterns of the recorded statements that the case's regex table does not hold: the interpreter answers false for
+    them by default (not RE2's answer), so a difference on such a case is reported without claiming a failing input"""
+    known_p = {e["p"] for e in c.get("oracle") or []}
+    pats = set()
+    for s in c.get("sqls") or []:
+        pats |= {P.unquote("'" + m + "'") for m in re.findall(r"match\([A-Za-z_.]+, '((?:[^'\\]|\\.)*)'\)", s)}
+    return sorted(x for x in pats if x not in known_p)
+
+
 def points(series):
     return {(json.dumps(s["labels"]), p["t"]): p["v"] for s in series or [] for p in s.get("points") or []}
 
@@ -40,7 +50,7 @@ def classify(c):
         # precondition of the recorded finding). Correction of round 5: "only additional points" used to be accepted without this
         # timing test, so a whole series selected by mistake (seed C17-e: job=~"^api|canary$" also returning api-gateway) was
         # filed under the staleness edge whenever the statement was step-bucketed.
-        offs = {0} | {int(n) * {"s": 1000, "m": 60000, "h": 3600000, "d": 86400000}[u] for n, u in re.findall(r"offset (\d+)([smhd])", c["expr"])}
+        offs = {0} | {int(n) * {"ms": 1, "s": 1000, "m": 60000, "h": 3600000, "d": 86400000}[u] for n, u in re.findall(r"offset (\d+)(ms|[smhd])", c["expr"])}
         tss = [x["ts_ns"] // 1000000 for x in c["db"]["samples"]]
         differing = {k[1] for k in set(g) | set(w) if g.get(k) != w.get(k)}
         if differing and all(any(300000 < t - o - ts < 300000 + step for ts in tss for o in offs) for t in differing):
@@ -141,10 +151,11 @@ def run(ck):
     ck.obligation("engine statements answer exactly series that satisfy the matchers of a selector of the expression (%d queries)" % len(usable),
                   not wrong_sel, "; ".join("%s: %s" % (c["expr"], d) for c, s, d in wrong_sel[:3]))
     if wrong_sel:
-        c, s, d = min(wrong_sel, key=lambda x: (len(x[0]["db"]["samples"]), len(x[0]["expr"])))
-        ck.violation({"property": "C17", "part": "engine-selection", "kind": "a statement of a PromQL query " + d,
+        c, s, d = min(wrong_sel, key=lambda x: (bool(oracle_gap(x[0])), len(x[0]["db"]["samples"]), len(x[0]["expr"])))
+        ck.violation({"property": "C17", "part": "engine-selection", "kind": "a statement of a PromQL query " + d, "patterns_outside_oracle_table": oracle_gap(c),
                       "expr": c["expr"], "matchers": c.get("matchers"), "start_ms": c["start_ms"], "end_ms": c["end_ms"], "step_ms": c["step_ms"],
-                      "database": c["db"], "sql": s, "replay": "harness promeng --cases <case line> (phase A), statement evaluated by PromCase.engine_rows"})
+                      "database": c["db"], "sql": s, "replay": "harness promeng --cases <case line> (phase A), statement evaluated by PromCase.engine_rows"},
+                     no_input=bool(oracle_gap(c)))
     pb_in = os.path.join(ck.work, "promeng_b_in.jsonl")
     with open(pb_in, "w") as f:
         for c in usable:
@@ -176,12 +187,14 @@ def run(ck):
     ck.obligation("PromQL over the adapter (statements answered by the reference interpreter) = PromQL over the reference storage, outside the recorded findings (%d queries)" % len(res),
                   not hard, "; ".join("%s [%d..%d step %d]" % (r["expr"], r["start_ms"], r["end_ms"], r["step_ms"]) for r in hard[:3]))
     if hard:
-        worst = min(hard, key=lambda r: (len(r["db"]["samples"]), len(r["expr"])))
+        gap_of = lambda r: oracle_gap(byid[r["id"]])
+        worst = min(hard, key=lambda r: (bool(gap_of(r)), len(r["db"]["samples"]), len(r["expr"])))
         ck.violation({"property": "C17", "part": "engine", "kind": "a PromQL range query over the adapter differs from the same query over the same samples in a reference storage",
                       "expr": worst["expr"], "start_ms": worst["start_ms"], "end_ms": worst["end_ms"], "step_ms": worst["step_ms"],
                       "database": worst["db"], "got": worst.get("got"), "want": worst.get("want"),
                       "got_err": worst.get("got_err"), "want_err": worst.get("want_err"), "sqls": worst.get("sqls"),
-                      "replay": "harness promeng --cases <phase B input line> (checks/promeng.py builds the answers)"})
+                      "patterns_outside_oracle_table": gap_of(worst),
+                      "replay": "harness promeng --cases <phase B input line> (checks/promeng.py builds the answers)"}, no_input=bool(gap_of(worst)))
     ck.coverage["evaluations"] += len(res)
     ck.coverage["distinct_nontrivial"] += nontrivial
     ck.coverage["rule"] += ("engine: generated PromQL range queries (bare / offset selectors, instant functions, aggregations, range functions with ranges 2 s..2 min, binary) "
